@@ -1013,6 +1013,10 @@ class IkeSa(object):
         matches_tsr = [x for x in self.creating_child_sa.tsr if chosen_tsr.is_subset(x)]
         if not matches_tsi or not matches_tsr:
             raise TsUnacceptable('Responder did not select a subset of our proposed TS.')
+        # a rekeyed CHILD_SA carries the traffic of the one it replaces: exactly its selectors, not narrower ones
+        if (self.request.get_notifies(PayloadNOTIFY.Type.REKEY_SA, True)
+                and (chosen_tsi != matches_tsi[0] or chosen_tsr != matches_tsr[0])):
+            raise TsUnacceptable('Responder changed the TS of a rekeyed CHILD_SA.')
 
         # create the IPsec SAs according to the negotiated CHILD SA
         self.creating_child_sa = self.creating_child_sa._replace(outbound_spi=chosen_child_proposal.spi,
